@@ -109,12 +109,10 @@ def addCore (cfg : CronCfg) (loading : Bool) (addFn : St → String → Obj → 
         .ok (aSet h.reg (keyOf cfg l.name id) ⟨s, l.name⟩, [["schedule", l.name, id, s]])
     match hook with
     | .error e =>
-      -- the hook refuses (malformed `rule`/`schedule`): the add is aborted. Approximation: memory as before the
-      -- call (the index side effects of the aborted add are not modelled); LinearState has already stored the document
-      let st := match l.st.kind with
-        | .linear => { l.st with store := s'.store, fresh := s'.fresh }
-        | .indexed => { l.st with fresh := s'.fresh }
-      ({ h with loc := { l with st := st } }, .error e, none)
+      -- the hook refuses (malformed `rule`/`schedule`): the add is aborted, memory and storage as before the call
+      -- (IndexedState.add puts the rule index back, LinearState.Add asks the hook before it writes); only the id
+      -- generator has moved
+      ({ h with loc := { l with st := { l.st with fresh := s'.fresh } } }, .error e, none)
     | .ok (reg', cl) =>
       let it := absItem id fact
       -- a scheduled rule that carries an expiration will fall out of step when its time comes (expiry calls no hook)
